@@ -15,28 +15,39 @@ share no code with optuna:
 * subset selection (optuna/_hypervolume/hssp.py _solve_hssp): requested size, distinct members of
   rank_i_indices, exact hypervolume >= (1 - 1/e) * max over ALL subsets of that size.
 
-Mutations of optuna this check must catch (the ones marked [verified] were applied to a scratch
-copy of the package and the check run against it, see the finding key that fired):
+Mutations of optuna this check must catch. Every one marked [verified] was applied to a scratch
+copy of the package (PYTHONPATH override) and the quick tier run against it; the finding keys that
+fired are listed. The unmodified tree is silent.
 
  M1 [verified] wfg._compute_2d: `rect_diag_y = np.append(reference_point[1], sorted_pareto_sols[:-1, 1])`
     -> `sorted_pareto_sols[1:, 1]` (off-by-one in the staircase accumulation)
-    => "wfg|d=2|value-mismatch", "wfg(assume_pareto)|d=2|value-mismatch", "hssp|d=2|..." unaffected.
+    => "wfg|d=2|value-mismatch", "wfg(assume_pareto)|d=2|value-mismatch".
  M2 [verified] hssp._solve_hssp: `chosen[duplicated_indices[: subset_size - n_unique]] = True`
     -> `[: subset_size - n_unique - 1]` (duplicate filling when n_unique < subset_size)
-    => "hssp|d=*|wrong-size".
+    => "hssp|d=1..5|wrong-size".
  M3 [verified] _multi_objective._is_pareto_front_nd: `np.any(loss_values < loss_values[0], axis=1)`
-    -> `<=` (a point tied with the front member in one coordinate survives although dominated)
-    => "rank|d=3..5|exact-part-mismatch", "pareto_front|d=3..5|mismatch".
+    -> `<=`. The top row then always survives its own filter and the peeling loop never ends; every
+    optuna call runs under a 5 s interval timer => "wfg|d=3|hang", "wfg|d=4|hang", "wfg|d=5|hang".
  M4 [verified] _multi_objective._is_pareto_front_2d: `cummin_value1[1:] < cummin_value1[:-1]` -> `<=`
-    => "rank|d=2|exact-part-mismatch", "pareto_front|d=2|mismatch".
+    => "pareto_front|d=2|mismatch", "rank|d=2|exact-part-mismatch", "rank|d=2|tail-not-worse",
+    "wfg|d=2|value-mismatch".
  M5 [verified] _multi_objective._fast_non_domination_rank: tiers in the wrong order (NaN-penalty
-    trials ranked before the infeasible ones) => "rank(penalty)|d=*|exact-part-mismatch".
- M6 [verified] hssp._lazy_contribs_update: `contribs[i] = hv_plus - hv_selected` -> `hv_plus`
-    (marginal contribution replaced by the inclusive value) => "hssp|d=3|below-(1-1/e)-bound".
- M7 [NOT caught - outside the property] hssp._lazy_contribs_update: `if contribs[i] < max_contrib`
-    -> `<=`. The greedy may then pick a candidate whose stale upper bound ties with the best fresh
-    contribution; on every enumerated input the result still satisfies the (1 - 1/e) bound, which is
-    all C15 states, so the check is (correctly) silent.
+    trials ranked before the infeasible ones)
+    => "rank(penalty)|d=1..3|exact-part-mismatch", "rank(penalty)|d=1..3|tail-not-worse".
+ M6 [verified] hssp._solve_hssp_on_unique_loss_vals: the line `rank_i_loss_vals = rank_i_loss_vals[keep]`
+    dropped (candidates and contributions misaligned) => "hssp|d=3|below-(1-1/e)-bound", same d=5.
+ M7 [verified] hssp._solve_hssp: `return rank_i_indices[selected_indices_of_unique_loss_vals]` ->
+    `return selected_indices_of_unique_loss_vals` (positions instead of trial indices; the check
+    passes gapped indices 3,5,7,..) => "hssp|d=1..5|not-a-member".
+ M8 [verified] wfg._compute_hv: `limited_sols_array[i, i + 1 :]` -> `[i, i + 2 :]`
+    => "wfg|d=3..5|value-mismatch", "wfg(assume_pareto)|d=1,3,4,5|value-mismatch".
+
+ NOT caught, and not catchable from the property as stated (tried): hssp._lazy_contribs_update
+ `if contribs[i] < max_contrib` -> `<=`; hssp._solve_hssp_2d with the rect_diags update shifted by
+ one or removed. These make the greedy choose a non-maximal contribution now and then, but the result
+ still reaches (1 - 1/e) of the optimum on every enumerated input (with the update removed also on
+ every duplicate-free antichain of {0..7}^2: worst ratio seen 0.68), which is all that C15 demands
+ of _solve_hssp.
 """
 from __future__ import annotations
 
@@ -44,11 +55,17 @@ import itertools
 import json
 import math
 import os
+import signal
 import warnings
 from fractions import Fraction
 from typing import Any, Callable, Iterator, Sequence
 
-import numpy as np
+# One BLAS thread per worker process: the arrays are tiny and 16 forked workers with a thread pool each
+# only fight for the cores (measured: 2x wall time). Must happen before numpy is first imported.
+for _v in ("OPENBLAS_NUM_THREADS", "OMP_NUM_THREADS", "MKL_NUM_THREADS"):
+    os.environ.setdefault(_v, "1")
+
+import numpy as np  # noqa: E402
 
 from .core import Ctx, InternalError, Part, main_wrapper, pmap
 
@@ -74,7 +91,17 @@ RULE = ("non-trivial = at least 2 points and at least one duplicate, one per-coo
 # ------------------------------------------------------------------------------------------------
 # optuna entry points (imported lazily so that PYTHONPATH overrides are visible in the evidence)
 # ------------------------------------------------------------------------------------------------
-def _optuna():
+_FNS: tuple | None = None
+
+
+def _optuna() -> tuple:
+    global _FNS
+    if _FNS is None:
+        _FNS = _optuna_import()
+    return _FNS
+
+
+def _optuna_import() -> tuple:
     from optuna._hypervolume import compute_hypervolume
     from optuna._hypervolume.hssp import _solve_hssp
     from optuna.study._multi_objective import _fast_non_domination_rank, _is_pareto_front
@@ -323,11 +350,14 @@ def antichains(al: Alpha, nmax: int) -> Iterator[tuple]:
 
 
 def orders(idx: tuple, full: bool = True) -> list[tuple]:
-    """Input orders of one multiset: every distinct permutation for n <= 3, otherwise four fixed
-    ones (sorted, reversed, rotated, odd/even interleaved); `full=False`: sorted + interleaved."""
+    """Input orders of one multiset. full: every distinct permutation for n <= 3, otherwise four
+    fixed ones (sorted, reversed, rotated, odd/even interleaved). Not full: sorted, reversed, rotated
+    for n <= 3; sorted + interleaved otherwise."""
     n = len(idx)
-    if n <= 3:
+    if n <= 3 and full:
         cand = [tuple(idx[j] for j in p) for p in itertools.permutations(range(n))]
+    elif n <= 3:
+        cand = [tuple(idx), tuple(idx[::-1]), tuple(idx[1:] + idx[:1])]
     else:
         b = list(idx)
         cand = [tuple(b), tuple(b[::-1]), tuple(b[n // 2:] + b[:n // 2]), tuple(b[1::2] + b[0::2])]
@@ -344,11 +374,38 @@ def orders(idx: tuple, full: bool = True) -> list[tuple]:
 # ------------------------------------------------------------------------------------------------
 # single-case checkers (shared by the enumeration and by --replay)
 # ------------------------------------------------------------------------------------------------
+HANG_S = 5.0  # a legal call takes well under a millisecond
+
+
+class Hang(BaseException):
+    """Raised by the interval timer inside an optuna call that does not return."""
+
+
+class AbortTask(Exception):
+    """The rest of a worker's shard is skipped after a hang (each further hang would cost HANG_S)."""
+
+
+def _on_alarm(signum: int, frame: Any) -> None:
+    raise Hang()
+
+
 def call(fn: Callable, *a: Any, **k: Any) -> tuple[str, Any]:
+    signal.setitimer(signal.ITIMER_REAL, HANG_S)
     try:
         return "ok", fn(*a, **k)
+    except Hang:
+        return "hang", f"Hang: no return within {HANG_S} s"
     except Exception as e:  # a legal input must not raise
         return "err", f"{type(e).__name__}: {e}"[:200]
+    finally:
+        signal.setitimer(signal.ITIMER_REAL, 0)
+
+
+def failed_call(part: Part, fnname: str, d: int, st: str, got: str, rep: dict) -> None:
+    if st == "hang":
+        part.violation(f"{fnname}|d={d}|hang", rep)
+        raise AbortTask()
+    part.violation(f"{fnname}|d={d}|exception:{got.split(':')[0]}", rep)
 
 
 def check_hv_value(part: Part, fnname: str, d: int, pts: Sequence[Sequence[float]], ref: Sequence[float],
@@ -362,8 +419,8 @@ def check_hv_value(part: Part, fnname: str, d: int, pts: Sequence[Sequence[float
         part.add("distinct_nontrivial")
     rep = {"fn": "compute_hypervolume", "points": [list(p) for p in pts], "reference_point": list(ref),
            "assume_pareto": assume_pareto, "expected": exp, "expected_kind": kind, "observed": got}
-    if st == "err":
-        part.violation(f"{fnname}|d={d}|exception:{got.split(':')[0]}", rep)
+    if st != "ok":
+        failed_call(part, fnname, d, st, got, rep)
         return
     got = float(got)
     rep["observed"] = got
@@ -402,8 +459,8 @@ def check_rank(part: Part, d: int, pts: Sequence[Sequence[float]], pens: Sequenc
         part.add("distinct_nontrivial")
     rep = {"fn": "_fast_non_domination_rank", "points": [list(p) for p in pts],
            "penalty": None if pens is None else list(pens), "n_below": nb, "expected": list(true), "observed": got}
-    if st == "err":
-        part.violation(f"{fnname}|d={d}|exception:{got.split(':')[0]}", rep)
+    if st != "ok":
+        failed_call(part, fnname, d, st, got, rep)
         return
     got = np.asarray(got)
     rep["observed"] = got.tolist()
@@ -426,8 +483,8 @@ def check_front(part: Part, d: int, pts: Sequence[Sequence[float]], assume_uniqu
         part.add("distinct_nontrivial")
     rep = {"fn": "_is_pareto_front", "points": [list(p) for p in pts],
            "assume_unique_lexsorted": assume_unique_lexsorted, "expected": list(true_front), "observed": got}
-    if st == "err":
-        part.violation(f"pareto_front|d={d}|exception:{got.split(':')[0]}", rep)
+    if st != "ok":
+        failed_call(part, "pareto_front", d, st, got, rep)
         return
     got = np.asarray(got)
     rep["observed"] = got.tolist()
@@ -450,8 +507,8 @@ def check_hssp(part: Part, d: int, pts: Sequence[Sequence[float]], ref: Sequence
         part.add("distinct_nontrivial")
     rep = {"fn": "_solve_hssp", "points": [list(p) for p in pts], "rank_i_indices": ids.tolist(),
            "subset_size": k, "reference_point": list(ref), "observed": got}
-    if st == "err":
-        part.violation(f"hssp|d={d}|exception:{got.split(':')[0]}", rep)
+    if st != "ok":
+        failed_call(part, "hssp", d, st, got, rep)
         return
     got = np.asarray(got)
     sel = got.tolist() if got.ndim == 1 else None
@@ -486,14 +543,14 @@ def check_hssp(part: Part, d: int, pts: Sequence[Sequence[float]], ref: Sequence
 def _quiet() -> None:
     warnings.simplefilter("ignore")
     np.seterr(all="ignore")
+    signal.signal(signal.SIGALRM, _on_alarm)
 
 
-def w_lat(task: tuple) -> dict:
+def w_lat(task: tuple, part: Part) -> None:
     """HV (assume_pareto False; True on antichains in several orders), ranks for every n_below and
     several orders, Pareto-front masks - for every multiset of n points of {0..m}^d in this shard."""
     _, d, m, n, shard, nshards, full_orders = task
     _quiet()
-    part = Part()
     lat = get_lat(d, m)
     refbits = list(itertools.product((0, 1), repeat=d))
     for idx in multiset_shard(lat.N, n, shard, nshards):
@@ -528,24 +585,25 @@ def w_lat(task: tuple) -> dict:
         pos_of: dict[int, list[int]] = {}
         for j, i in enumerate(idx):
             pos_of.setdefault(i, []).append(j)
-        for o in ords:
+        for oi, o in enumerate(ords):
             true = [true_sorted[pos_of[i][0]] for i in o]  # rank depends on the point only
             opts = [lat.pts[i] for i in o]
             check_front(part, d, opts, False, [r == 0 for r in true], nontriv)
-            for nb in [None] + list(range(1, n + 1)):
+            # every n_below on every order; in the reduced-order configurations every n_below on the
+            # sorted order and {None, max(1, n // 2)} on the other ones
+            nbs = [None] + list(range(1, n + 1)) if (full_orders or oi == 0) else [None, max(1, n // 2)]
+            for nb in nbs:
                 check_rank(part, d, opts, None, nb, true, nontriv)
         if nontriv and shard == 0:
             part.sample({"fn": "compute_hypervolume/_fast_non_domination_rank", "d": d, "points": pts,
                          "reference_points": "{max,max+1}^d of " + str(mx), "ranks": true_sorted}, cap=1)
-    return part.out()
 
 
-def w_pen(task: tuple) -> dict:
+def w_pen(task: tuple, part: Part) -> None:
     """Constrained ranks: every penalty vector over {nan,-1,0,1,2}^n, every n_below, sorted and
     reversed input order, for every multiset of n points of {0..m}^d in this shard."""
     _, d, m, n, shard, nshards, both = task
     _quiet()
-    part = Part()
     lat = get_lat(d, m)
     for idx in multiset_shard(lat.N, n, shard, nshards):
         dup, tie, dom = lat.features(idx)
@@ -562,15 +620,13 @@ def w_pen(task: tuple) -> dict:
                 part.sample({"fn": "_fast_non_domination_rank(penalty)", "d": d, "points": opts,
                              "penalty": [NAN, 1.0, 0.0, 2.0, -1.0][:n],
                              "expected": tier_ranks(o, lat.domby, [NAN, 1.0, 0.0, 2.0, -1.0][:n])}, cap=1)
-    return part.out()
 
 
-def w_hssp(task: tuple) -> dict:
+def w_hssp(task: tuple, part: Part) -> None:
     """_solve_hssp on every mutually non-dominated multiset of <= nmax points of {0..m}^d (this
     shard), every subset size 1..n, every reference point in {max,max+1}^d, several input orders."""
     _, d, m, nmax, shard, nshards, full_orders = task
     _quiet()
-    part = Part()
     lat = get_lat(d, m)
     refbits = list(itertools.product((0, 1), repeat=d))
     for j, idx in enumerate(antichains(lat, nmax)):
@@ -605,7 +661,6 @@ def w_hssp(task: tuple) -> dict:
         if n >= 3 and n_uniq >= 2 and shard == 0:
             part.sample({"fn": "_solve_hssp", "d": d, "points": pts0, "subset_sizes": f"1..{n}",
                          "reference_points": "{max,max+1}^d of " + str(mx)}, cap=1)
-    return part.out()
 
 
 def _ext_refs(mx: Sequence[float], wide: bool) -> list[tuple]:
@@ -621,13 +676,12 @@ def _ext_refs(mx: Sequence[float], wide: bool) -> list[tuple]:
     return list(itertools.product(*per))
 
 
-def w_inf(task: tuple) -> dict:
+def w_inf(task: tuple, part: Part) -> None:
     """The alphabet {0,1,+inf,-inf}: HV (definitely-infinite boxes => inf, finite => exact,
     indeterminate 0*inf / inf-inf => inf or finite part accepted), ranks / fronts (dominance is
     well defined on the extended reals), HSSP on antichains."""
     _, d, values, n, shard, nshards, wide = task
     _quiet()
-    part = Part()
     al = get_alpha(d, values)
     for idx in multiset_shard(al.N, n, shard, nshards):
         dup, tie, dom = al.features(idx)
@@ -671,14 +725,19 @@ def w_inf(task: tuple) -> dict:
                 check_rank(part, d, opts, None, nb, true, nontriv)
         if shard == 0 and nontriv and any(math.isinf(x) for p in pts for x in p):
             part.sample({"fn": "extended alphabet", "d": d, "points": pts, "ranks": true_sorted}, cap=1)
-    return part.out()
 
 
 WORKERS = {"lat": w_lat, "pen": w_pen, "hssp": w_hssp, "inf": w_inf}
 
 
 def worker(task: tuple) -> dict:
-    return WORKERS[task[0]](task)
+    part = Part()
+    try:
+        WORKERS[task[0]](task, part)
+    except AbortTask:
+        part.note(f"a call did not return within {HANG_S} s; the rest of its shard was skipped")
+        part.add("shards_aborted_after_hang")
+    return part.out()
 
 
 # ------------------------------------------------------------------------------------------------
@@ -707,15 +766,16 @@ def plan(tier: str) -> tuple[list[tuple], dict]:
         add("lat", 3, 2, [1, 2, 3], [1, 1, 8])
         add("lat", 4, 2, [1, 2], [1, 8])
         add("lat", 4, 1, [3], [4])
-        add("lat", 5, 1, [1, 2, 3], [1, 2, 24])
+        add("lat", 5, 1, [1, 2, 3], [1, 2, 48], False)
     else:
         add("lat", 2, 3, [1, 2, 3, 4], [1, 1, 1, 4])
         add("lat", 2, 3, [5], [16])
         add("lat", 3, 3, [1, 2, 3], [1, 4, 32])
-        add("lat", 3, 3, [4], [192], False)
-        add("lat", 4, 2, [1, 2, 3], [1, 4, 96])
+        add("lat", 3, 3, [4], [96], False)
+        add("lat", 4, 2, [1, 2], [1, 4])
+        add("lat", 4, 2, [3], [48], False)
         add("lat", 5, 1, [1, 2, 3], [1, 2, 16])
-        add("lat", 5, 1, [4], [96], False)
+        add("lat", 5, 1, [4], [48], False)
     # constrained ranks
     if q:
         add("pen", 1, 2, [1, 2, 3], [1, 1, 1])
@@ -723,12 +783,13 @@ def plan(tier: str) -> tuple[list[tuple], dict]:
         add("pen", 3, 1, [1, 2, 3], [1, 1, 6])
     else:
         add("pen", 1, 3, [1, 2, 3, 4], [1, 1, 1, 8])
-        add("pen", 2, 3, [1, 2, 3], [1, 2, 32])
-        add("pen", 2, 2, [4], [48])
+        add("pen", 2, 3, [1, 2, 3], [1, 2, 24])
+        add("pen", 2, 1, [4], [8])
         add("pen", 3, 2, [1, 2], [1, 4])
-        add("pen", 3, 2, [3], [64], False)
-        add("pen", 3, 1, [4], [32])
-        add("pen", 4, 1, [1, 2, 3], [1, 2, 16])
+        add("pen", 3, 1, [3], [4])
+        add("pen", 3, 1, [4], [24], False)
+        add("pen", 4, 1, [1, 2], [1, 2])
+        add("pen", 4, 1, [3], [12], False)
     # HSSP on antichains (the task's n is the maximum size)
     if q:
         add("hssp", 1, 4, [4], [1])
@@ -736,16 +797,16 @@ def plan(tier: str) -> tuple[list[tuple], dict]:
         add("hssp", 3, 2, [4], [12])
         add("hssp", 4, 1, [4], [6])
         add("hssp", 4, 2, [2], [4])
-        add("hssp", 5, 1, [3], [12])
+        add("hssp", 5, 1, [3], [48], False)
     else:
         add("hssp", 1, 4, [5], [1])
         add("hssp", 2, 3, [6], [8])
         add("hssp", 2, 4, [5], [8])
         add("hssp", 3, 2, [5], [48], False)
-        add("hssp", 3, 3, [4], [64], False)
+        add("hssp", 3, 3, [3], [32])
         add("hssp", 4, 1, [5], [16], False)
-        add("hssp", 4, 2, [3], [48])
-        add("hssp", 5, 1, [4], [64], False)
+        add("hssp", 4, 2, [3], [48], False)
+        add("hssp", 5, 1, [4], [32], False)
     # extended alphabet
     add("inf", 1, EXT, [1, 2, 3, 4], [1, 1, 1, 1])
     if q:
@@ -756,11 +817,11 @@ def plan(tier: str) -> tuple[list[tuple], dict]:
     else:
         add("inf", 2, EXT, [1, 2, 3, 4], [1, 1, 4, 16])
         add("inf", 3, EXT, [1, 2], [1, 8])
-        add("inf", 3, EXT, [3], [64], False)
+        add("inf", 3, EXT, [3], [32], False)
         add("inf", 4, EXT, [1], [2])
-        add("inf", 4, EXT, [2], [48], False)
+        add("inf", 4, EXT, [2], [32], False)
         add("inf", 5, EXT, [1], [8], False)
-        add("inf", 5, EXT3, [2], [48], False)
+        add("inf", 5, EXT3, [2], [32], False)
     return tasks, bounds
 
 
@@ -844,6 +905,21 @@ def replay_case(path: str) -> int:
     al.domby = [sum(1 << j for j, q in enumerate(al.pts) if dominates(q, p)) for p in al.pts]
     idx = [al.pts.index(p) for p in pts]
     fn = rep["fn"]
+    try:
+        _replay_dispatch(part, fn, rep, pts, d, idx, al)
+    except AbortTask:
+        pass
+    out = part.out()
+    if out["viol"]:
+        for key, r in out["viol"].items():
+            print(f"VIOLATION property={PID} replay={path}  # {key}")
+            print(json.dumps({k: v for k, v in r.items() if not k.startswith('_')}, indent=1))
+        return 1
+    print(f"[{PID}] replay {path}: no longer violated")
+    return 0
+
+
+def _replay_dispatch(part: Part, fn: str, rep: dict, pts: list, d: int, idx: list, al: Alpha) -> None:
     if fn == "compute_hypervolume":
         ref = tuple(float(v) for v in _unjson(rep["reference_point"]))
         kind, exp = hv_ext(pts, ref)
@@ -862,14 +938,6 @@ def replay_case(path: str) -> int:
                    (lambda pos: hv_ext([pts[q] for q in pos], ref)[1]) if dec else None, False)
     else:
         raise InternalError(f"unknown replay fn {fn}")
-    out = part.out()
-    if out["viol"]:
-        for key, r in out["viol"].items():
-            print(f"VIOLATION property={PID} replay={path}  # {key}")
-            print(json.dumps({k: v for k, v in r.items() if not k.startswith('_')}, indent=1))
-        return 1
-    print(f"[{PID}] replay {path}: no longer violated")
-    return 0
 
 
 # ------------------------------------------------------------------------------------------------
